@@ -847,7 +847,223 @@ def r1_9(F, R):
         R.ok("R1.9", "process_prefixes", "%d reads, all after complete_prefix" % n, loc, how="dominator")
 
 
+def r1_10(F, R):
+    R.rule("R1.10", "what a group restores is the value at the moment it opened: the value saved for a target in the current group is recorded once, "
+                    "by the first local assignment, and later local assignments in the same group leave the record alone. Structurally: "
+                    "(a) SaveStackMap::save writes only through a vacant entry (VacantEntry::insert / or_insert), never through HashMap::insert, which "
+                    "would replace the first record by the value before the *last* assignment; (b) in GroupingContainer::insert a Revert(old) record "
+                    "reaches the group's log only through a vacant entry; (c) the current font is stored into the top of fonts_save_stack only "
+                    "under an is-empty test of that slot")
+    VAC = ("VacantEntry::insert", "Entry::or_insert", "Entry::or_insert_with", "VacantEntry::insert_entry", "Entry::or_default")
+
+    def is_vac(cn):
+        return any(cn.replace("<K, V>", "").replace("<'a, K, V>", "").endswith(v) or ("::" + v.split("::")[0] + "<") in cn and cn.endswith("::" + v.split("::")[1]) for v in VAC)
+
+    # (a)
+    fn = _one_fn(F, "texlang::variable::SaveStackMap::save")
+    loc = "%s:%d" % (fn.file, fn.line)
+    dom = dominators(fn)
+    tests = {bi for bi, t in fn.calls() if strip_generics(callee_name(t) or "").split("::")[-1] in ("contains_key", "get", "get_mut", "is_none", "is_some")}
+    bad = vac = 0
+    for bi, t in fn.calls():
+        cn = strip_generics(callee_name(t) or "")
+        if is_vac(cn):
+            vac += 1
+        elif cn.endswith("HashMap::insert") or cn.endswith("::insert") and "HashMap" in cn or cn.split("::")[-1] in ("extend", "insert_unique_unchecked"):
+            if not any(tb in dom[bi] and tb != bi for tb in tests):
+                bad += 1
+                R.violation("R1.10", "SaveStackMap::save/overwrite", "SaveStackMap::save stores with %s, which replaces an existing record: the second local "
+                            "assignment to a variable inside one group overwrites the saved value, and the group then restores the value before the last "
+                            "assignment instead of the value at group open" % cn.split("::")[-1], fn.loc(t))
+    if not bad:
+        if not vac and not tests:
+            raise AnchorError("R1.10: SaveStackMap::save: no recognised write into the save map")
+        R.ok("R1.10", "SaveStackMap::save", "writes only through a vacant entry (%d) or under a presence test" % vac, loc, how="callee-set")
+    # (b)
+    fn = _one_fn(F, "texcraft_stdext::collections::groupingmap::GroupingContainer::insert")
+    D = Defs(fn)
+    loc = "%s:%d" % (fn.file, fn.line)
+    dom = dominators(fn)
+    nrev = 0
+    bad = 0
+
+    def is_revert(o, depth=4):
+        p = op_place(o)
+        if p is None or p["p"] or depth == 0:
+            return False
+        for d in D.defs.get(p["l"], []):
+            if d[0] == "st" and d[3]["k"] == "=":
+                rv = d[3]["rv"]
+                if rv["k"] == "agg" and str(rv.get("variant")) == "Revert":
+                    return True
+                if rv["k"] == "use" and is_revert(rv["op"], depth - 1):
+                    return True
+        return False
+    for bi, t in fn.calls():
+        cn = strip_generics(callee_name(t) or "")
+        if not any(is_revert(a) for a in t.get("args") or []):
+            continue
+        nrev += 1
+        if is_vac(cn):
+            R.ok("R1.10", "GroupingContainer::insert/revert#%d" % nrev, "Revert record written through %s" % cn.split("::")[-1], fn.loc(t), how="callee-set")
+        else:
+            tests = {tb for tb, tt in fn.calls() if strip_generics(callee_name(tt) or "").split("::")[-1] in ("contains_key",) and tb in dom[bi] and tb != bi}
+            if tests:
+                R.ok("R1.10", "GroupingContainer::insert/revert#%d" % nrev, "Revert record written under a contains_key test", fn.loc(t), how="dominator")
+            else:
+                bad += 1
+                R.violation("R1.10", "GroupingContainer::insert/revert#%d" % nrev, "GroupingContainer::insert records Revert(old) with %s, which replaces the record "
+                            "of an earlier local assignment in the same group: the group then restores an intermediate value" % cn, fn.loc(t))
+    if nrev == 0:
+        raise AnchorError("R1.10: GroupingContainer::insert: no Revert record is written")
+    # (c)
+    f2s = [f for f in F.fns.values() if strip_generics(f.name) == "texlang::vm::VM::run_impl"]
+    cands = list(f2s) + [g for g in F.fns.values() if f2s and g.file == f2s[0].file and g.id != f2s[0].id and _extracted_from(F, g, {"texlang::vm::VM::run_impl"})]
+    nfont = 0
+    for g in cands:
+        if not any("fonts_save_stack" in [e.get("n") for e in (op_place({"cp": st["rv"]["pl"]}) or {"p": []})["p"] if isinstance(e, dict)]
+                   for b in g.blocks for st in b["s"] if st["k"] == "=" and st["rv"]["k"] in ("ref",)):
+            continue
+        domg = dominators(g)
+        tests = {bi for bi, t in g.calls() if strip_generics(callee_name(t) or "").split("::")[-1] in ("is_none", "is_some")}
+        for bi, b in enumerate(g.blocks):
+            t = b["t"]
+            if t["k"] == "switch":
+                pp = op_place(t["op"])
+                dd = Defs(g).single(pp["l"]) if pp is not None and not pp["p"] else None
+                if dd and dd[0] == "st" and dd[3]["k"] == "=" and dd[3]["rv"]["k"] == "discr" and g.local_ty((dd[3]["rv"]["pl"])["l"]).replace("&mut ", "") == "core::option::Option<texlang::types::Font>":
+                    tests.add(bi)
+        for bi, b in enumerate(g.blocks):
+            for st in b["s"]:
+                if st["k"] != "=":
+                    continue
+                lhs = st["lhs"]
+                if lhs["p"] != ["*"] or g.local_ty(lhs["l"]) != "&mut core::option::Option<texlang::types::Font>":
+                    continue
+                rv = st["rv"]
+                if rv["k"] == "use":
+                    q = op_place(rv["op"])
+                    dq = Defs(g).single(q["l"]) if q is not None and not q["p"] else None
+                    rv = dq[3]["rv"] if dq and dq[0] == "st" and dq[3]["k"] == "=" else rv
+                if rv["k"] == "agg" and str(rv.get("variant")) == "None":
+                    continue   # the purge of a global assignment
+                nfont += 1
+                if any(tb in domg[bi] for tb in tests):
+                    R.ok("R1.10", "font/save#%d" % nfont, "the current font is saved under an emptiness test of the slot", g.loc(st), how="dominator")
+                else:
+                    R.violation("R1.10", "font/save#%d" % nfont, "%s stores the current font into the top of fonts_save_stack without testing that the slot is "
+                                "empty: a second local font change in the same group overwrites the font saved at group open" % g.name, g.loc(st))
+    if nfont == 0:
+        raise AnchorError("R1.10: no store of the current font into fonts_save_stack found")
+
+
+def r1_11(F, R):
+    import json, os
+    R.rule("R1.11", "no assignment path ignores its scope: in every function of the command map, the variables API, the scoped containers and the "
+                    "standard library that receives a groupingmap::Scope, every normal path to a return hands the scope on (to a callee, into a field) "
+                    "or branches on it — a path that ends without looking at the scope does the same thing for a local and a \\global assignment, "
+                    "and a global assignment has work to do even when the value does not change (purging the saved values of the open groups). "
+                    "Exceptions are audited early-outs, each tied to one arm of one test (tables/scope_bypass_audited.json)")
+    tab = json.load(open(os.path.join(os.path.dirname(os.path.dirname(os.path.dirname(os.path.abspath(__file__)))), "tables", "scope_bypass_audited.json")))
+    n = 0
+    used = set()
+    for fn in sorted(F.fns.values(), key=lambda f: f.name):
+        sc = [i for i in range(1, fn.argc + 1) if fn.local_ty(i).endswith("groupingmap::Scope")]
+        if not sc or "::tests::" in fn.name or fn.crate.endswith(".test") or fn.crate not in ("texlang.lib", "texlang_stdlib.lib", "texcraft_stdext.lib", "texlang_font.lib"):
+            continue
+        nm = strip_generics(fn.name)
+        if "::_::" in nm or fn.raw.get("mac") in ("Clone", "Debug", "PartialEq", "Serialize", "Deserialize") or (fn.impl and (fn.impl.get("trait") or "").split("::")[-1] in ("Clone", "Debug", "PartialEq", "Eq", "Hash")):
+            continue
+        n += 1
+        hold = set(sc)
+        ch = True
+        while ch:
+            ch = False
+            for b in fn.blocks:
+                for st in b["s"]:
+                    if st["k"] == "=" and st["rv"]["k"] == "use" and not st["lhs"]["p"]:
+                        q = op_place(st["rv"]["op"])
+                        if q is not None and not q["p"] and q["l"] in hold and st["lhs"]["l"] not in hold:
+                            hold.add(st["lhs"]["l"])
+                            ch = True
+        use = set()
+        for bi, b in enumerate(fn.blocks):
+            for st in b["s"]:
+                if st["k"] != "=":
+                    continue
+                if st["rv"]["k"] == "discr" and st["rv"]["pl"]["l"] in hold:
+                    use.add(bi)
+                if st["lhs"]["p"] and any((op_place(o) or {"l": -1})["l"] in hold for o in rv_operands(st["rv"])):
+                    use.add(bi)      # stored into a field / through a reference
+                if st["rv"]["k"] == "agg" and any((op_place(o) or {"l": -1})["l"] in hold for o in st["rv"]["ops"]):
+                    use.add(bi)      # wrapped into a value that travels on
+            t = b["t"]
+            if t["k"] == "call" and any((op_place(a) or {"l": -1})["l"] in hold for a in t["args"]):
+                use.add(bi)
+        loc = "%s:%d" % (fn.file, fn.line)
+        exc_blocks = set()
+        whole = False
+        key = nm if nm in tab else None
+        for spec in tab.get(key, []) if key else []:
+            used.add(key)
+            if spec.get("whole"):
+                whole = True
+                continue
+            D = Defs(fn)
+            for bi, t in fn.calls():
+                if not strip_generics(callee_name(t) or "").endswith(spec["call"]):
+                    continue
+                r = t["dest"]["l"]
+                nxt = t.get("t")
+                if spec["arm"] in ("true", "false"):
+                    # the bool result is switched on (possibly after a copy)
+                    for b2, blk in enumerate(fn.blocks):
+                        tt = blk["t"]
+                        if tt["k"] == "switch":
+                            p = op_place(tt["op"])
+                            src = D.resolve_place(tt["op"]) if p is not None else None
+                            if p is not None and (p["l"] == r or (src is not None and src["l"] == r)):
+                                m = dict((v, bb) for v, bb in tt["ts"])
+                                exc_blocks.add(m.get(0, tt["else"]) if spec["arm"] == "false" else (tt["else"] if 0 in m else m.get(1)))
+                else:
+                    for b2, blk in enumerate(fn.blocks):
+                        tt = blk["t"]
+                        if tt["k"] != "switch":
+                            continue
+                        p = op_place(tt["op"])
+                        for st in blk["s"]:
+                            if p is not None and st["k"] == "=" and st["lhs"]["l"] == p["l"] and st["rv"]["k"] == "discr" and st["rv"]["pl"]["l"] == r and not st["rv"]["pl"]["p"]:
+                                vs = F.enum_variants(st["rv"]["ty"]) or []
+                                m = dict((v, bb) for v, bb in tt["ts"])
+                                for name, d, vi in vs:
+                                    if name == spec["arm"]:
+                                        exc_blocks.add(m.get(d, tt["else"]))
+        if whole:
+            R.ok("R1.11", nm, "audited: " + tab[key][0]["why"], loc, how="audited")
+            continue
+        path = normal_exit_avoiding(fn, use | exc_blocks)
+        if path is None:
+            R.ok("R1.11", nm, "every normal path uses the scope (%d use blocks%s)" % (len(use), ", %d audited early-out arms" % len(exc_blocks) if exc_blocks else ""), loc, how="path")
+        else:
+            R.violation("R1.11", nm, "%s can return normally without ever looking at its scope argument (%s): on that path a \\global assignment behaves like a "
+                        "local one — in particular it does not purge what the open groups saved, so the old value comes back when they close" % (
+                            fn.name, fmt_path(fn, path)), loc)
+    # the default body of SupportedType::update_save_stack is exempt because nobody relies on it
+    impls_a = {(f.impl or {}).get("self_ty") or f.name.split(" as ")[0] for f in F.fns.values() if f.impl and (f.impl.get("trait") or "").endswith("variable::SupportedType") and f.name.endswith("::new_command")}
+    impls_b = {(f.impl or {}).get("self_ty") or f.name.split(" as ")[0] for f in F.fns.values() if f.impl and (f.impl.get("trait") or "").endswith("variable::SupportedType") and f.name.endswith("::update_save_stack")}
+    if impls_a - impls_b:
+        R.violation("R1.11", "SupportedType/default-update_save_stack", "%s implement SupportedType without overriding update_save_stack: their variables are "
+                    "never saved when assigned inside a group" % sorted(impls_a - impls_b), "crates/texlang/src/variable.rs:1")
+    elif not impls_a:
+        raise AnchorError("R1.11: no SupportedType impls found")
+    else:
+        R.ok("R1.11", "SupportedType/default-update_save_stack", "all %d implementors override it" % len(impls_a), "crates/texlang/src/variable.rs:1", how="sibling")
+    R.floor("R1.11", "functions that receive a Scope", n, 15)
+
+
 def run(F, R, tier):
+    r1_11(F, R)
+    r1_10(F, R)
     r1_1(F, R)
     r1_9(F, R)
     r1_2(F, R)
